@@ -207,6 +207,7 @@ struct DomEntry {
 std::vector<DomEntry> &registry();
 const DomEntry *find_domain(const std::string &name);
 void apply_config(const Config &c);
+void quiet_crab(); // disables CRAB_WARN output
 struct Registrar {
   Registrar(const DomEntry &e) { registry().push_back(e); }
 };
